@@ -15,7 +15,8 @@ import subprocess
 import sys
 import time
 
-SEED = '/tmp/seed'
+SEED = '/tmp/seed'                      # scratch worktrees /tmp/seed/<PROP>
+OUT = os.environ.get('SEEDOUT', SEED)   # deliverables <OUT>/<PROP>.out/m1, m2
 STD = 'g++ -std=c++14 -O1 -I$WT/include -I$WT/_build/include demo.cc -o demo_c -ltbb -lboost_timer && ./demo_c'
 ASAN = 'g++ -std=c++14 -O1 -g -fsanitize=address -fno-omit-frame-pointer -I$WT/include -I$WT/_build/include demo.cc -o demo_c -ltbb -lboost_timer && ./demo_c'
 MPICXX = 'mpicxx -std=c++14 -O1 -I$WT/include -I$WT/_build/include demo.cc -o demo -ltbb -lboost_timer -lboost_mpi -lboost_serialization'
@@ -61,7 +62,7 @@ def build(wt):
 
 def confirm(prop, m):
     wt = os.path.join(SEED, prop)
-    d = os.path.join(SEED, prop + '.out', m)
+    d = os.path.join(OUT, prop + '.out', m)
     res = {'property': prop, 'seed': m, 'worktree': wt}
     demo = DEMOS.get((prop, m), STD).replace('$WT', wt)
     res['demo_cmd'] = 'cd %s && %s' % (d, demo)
@@ -92,14 +93,14 @@ def confirm(prop, m):
 
 
 def main():
-    props = sys.argv[1:] or sorted(p[:-4] for p in os.listdir(SEED) if p.endswith('.out'))
-    os.makedirs(os.path.join(SEED, 'confirm'), exist_ok=True)
+    props = sys.argv[1:] or sorted(p[:-4] for p in os.listdir(OUT) if p.endswith('.out'))
+    os.makedirs(os.path.join(OUT, 'confirm'), exist_ok=True)
     for prop in props:
         for m in ('m1', 'm2'):
-            if not os.path.exists(os.path.join(SEED, prop + '.out', m, 'patch.diff')):
+            if not os.path.exists(os.path.join(OUT, prop + '.out', m, 'patch.diff')):
                 continue
             r = confirm(prop, m)
-            with open(os.path.join(SEED, 'confirm', '%s-%s.json' % (prop, m)), 'w') as fh:
+            with open(os.path.join(OUT, 'confirm', '%s-%s.json' % (prop, m)), 'w') as fh:
                 json.dump(r, fh, indent=1)
             print('%s %s confirmed=%s applies=%s build=%s ctest=%s pristine_rc=%s mutated_rc=%s' % (
                 prop, m, r.get('confirmed'), r.get('patch_applies'), r.get('mutated_build_ok'), r.get('ctest_pass'),
